@@ -618,7 +618,7 @@ func c09Backtrack(r *core.Report) {
 					key := fmt.Sprintf("backtrack:%s#%d", core.FuncName(d), k)
 					first := ast.Unparen(ret.Results[0])
 					if tv, ok := info.Types[first]; ok && tv.IsNil() {
-						r.Trivial(key, p.Pos(ret.Pos()), "returns no match")
+						r.Bad(key, p.Pos(ret.Pos()), "inside the loop over alternatives the function returns `no match` outright: the alternatives not yet tried (a variable or regular-expression segment next to a literal one whose subtree led nowhere) are abandoned, and an existing route is reported as not found")
 						return true
 					}
 					good := false
